@@ -18,10 +18,11 @@
     (d) convolution_chain             transform, pointwise product, inverse transform, scaling ≡ the acyclic convolution
         mul_trunc_sqrt2_val           limbs → split → … → combine = the product, under `FftParams.Sound`
         mul_fft_main_nonmfa_val       … hence for the parameters mpn_mul_fft_main selects (non-MFA path)
-    MFA: fft_radix2_twiddle_bitrev_dft, mfa_passes_partial (column pass + row pass = the plain DFT permuted)
+    MFA: fft_radix2_twiddle_bitrev_dft, fft_trunc1_twiddle_prefix, mfa_passes_partial (column pass + row pass = the
+         plain DFT permuted), fft_mfa_first_half_partial (the model's first half matrix = the plain transform permuted)
 -/
 import MpirProofs.Lemmas.FftXMul
-import MpirProofs.Lemmas.FftXMfa
+import MpirProofs.Lemmas.FftXMfaMain
 import MpirProofs.Props.C01_algo
 namespace Mpir.FftX
 open Mpir Finset
@@ -164,16 +165,19 @@ example : let x := (List.range 130).map (fun i => ((i : Int) + 1) * 12345) ++ Li
 
 The models of mpir_fft_radix2_twiddle / mpir_fft_trunc1_twiddle / mpir_fft_mfa_trunc_sqrt2 and their inverses exist
 (Model/FftX.lean) and are run against the library on every check (`fftx_mfa`, `fftx_imfa`: every n1, every trunc).
-Proved here: what the twiddled column transform computes, and that the column pass followed by the row pass — the
-model's own functions on the extracted columns / rows — leaves the DFT in the permutation (row j, column t) ↦
-frequency j + n2·t, i.e. the value the plain radix-2 transform has at position rev(j + n2·t).
+Proved: what the twiddled column transform computes; its truncated version agrees with it on the first `trunc`
+outputs; the column pass followed by the row pass leaves the DFT in the permutation (row j, column t) ↦ frequency
+j + n2·t; and, through the strided plumbing of the model (column folds with getCol/setCol, row folds), the FIRST HALF
+matrix of `fft_mfa_trunc_sqrt2` holds the values of the plain √2 transform in that permutation
+(`fft_mfa_first_half_partial`).
 
-Full statement (not proved):  for TruncSOk d trunc, 2·n1 ∣ trunc, n1 = 2^(e1+1) ≤ n, inputs zero from `trunc` on:
-  el (fft_mfa_trunc_sqrt2 d w n1 trunc xs) (j·n1 + t) = el (fft_full_sqrt2 d w xs) (rev (d+1) (j + n2·t))  modulo p
-  for j < n2, t < n1 in the first half, and the same with offset 2n for the rows j = rev s, s < trunc2, of the second;
+Full statement (second half and inverse not proved):  for TruncSOk d trunc, 2·n1 ∣ trunc, inputs zero from `trunc` on,
+  el (fft_mfa_trunc_sqrt2 d w n1 trunc xs) (j·n1 + t) ≡ el (fft_full_sqrt2 d w xs) (rev (d+1) (j + n2·t))   j < n2, t < n1
+  el (fft_mfa_trunc_sqrt2 d w n1 trunc xs) (2n + j·n1 + t) ≡ el (fft_full_sqrt2 d w xs) (2n + rev (d+1) (j + n2·t))
+                                                             for the rows j = rev s, s < (trunc − 2n)/n1,
   and ifft_mfa_trunc_sqrt2 inverts it (4n-fold).
-Missing: the strided plumbing of the model (foldl over columns with getCol/setCol, onRows) that connects
-`fft_mfa_trunc_sqrt2` to `mfaRow` / `fft_trunc1_twiddle_prefix`, and the inverse direction. -/
+Missing: the second-half assembly (ingredients proved: `fft_trunc1_twiddle_prefix`, `mfa_passes_partial`, the fold
+lemmas of Lemmas/FftXPlumb.lean) and the inverse direction. -/
 
 /-- mpir_fft_radix2_twiddle (2n entries of a column, shift w, ws = bits of z, r = first row, c = column, rs = row step):
     position rev(i) holds the DFT value of frequency i times 2^((r + rs·i)·c·ws).  With r = 0, rs = 1 that is the
@@ -217,6 +221,26 @@ example : let x : List Int := [3, 1, 4, 1, 5, 9, 2, 6, 5, 3, 5, 8, 9, 7, 9, 3]
     (List.range 4).flatMap (fun j => (mfaRow 1 1 8 x j).map (· % pOf 64)) =
       (List.range 4).flatMap (fun j => (List.range 4).map fun t =>
         el (fft_radix2 3 8 x) (rev 4 (j + 4 * t)) % pOf 64) := by decide +kernel
+
+/-- mpir_fft_mfa_trunc_sqrt2 with n1 = 2^(e1+1) columns, n2 = 2^(e2+1) rows, n = n1·n2/2 (depth e1+e2+1), inputs zero
+    from `trunc` on: after all four loops the entry (row j, column t) of the FIRST HALF matrix is congruent to the value
+    the plain transform (`fft_full_sqrt2`, of which `fft_trunc_sqrt2` computes the first `trunc` outputs) has in
+    position rev(j + n2·t) — the same DFT values, permuted.  `_partial`: the second half matrix is not covered. -/
+theorem fft_mfa_first_half_partial (e1 e2 w trunc : Nat) (xs : List Int) (hlen : xs.length = 4 * 2 ^ (e1 + e2 + 1))
+    (ht : TruncSOk (e1 + e2 + 1) trunc) (hz0 : ∀ j, trunc ≤ j → el xs j = 0) (j t : Nat)
+    (hj : j < 2 ^ (e2 + 1)) (htt : t < 2 ^ (e1 + 1)) :
+    el (fft_mfa_trunc_sqrt2 (e1 + e2 + 1) w (2 ^ (e1 + 1)) trunc xs) (j * 2 ^ (e1 + 1) + t) ≡
+      el (fft_full_sqrt2 (e1 + e2 + 1) w xs) (rev (e1 + e2 + 2) (j + 2 ^ (e2 + 1) * t))
+      [ZMOD pOf (2 ^ (e1 + e2 + 1) * w)] :=
+  toZ _ (fft_mfa_first_half _ e1 e2 w trunc xs hlen ht hz0 (zmod_two_pow _) j t hj htt)
+
+-- non-vacuity: depth 3 (n = 8, 32 coefficients modulo 2^64+1, w = 8), n1 = 4, n2 = 4, trunc = 24
+example : TruncSOk 3 24 := by unfold TruncSOk; decide
+example : let x : List Int := (List.range 24).map (fun i => ((i : Int) + 3) * 1000003) ++ List.replicate 8 0
+    (List.range 4).flatMap (fun j => (List.range 4).map fun t =>
+        el (fft_mfa_trunc_sqrt2 3 8 4 24 x) (j * 4 + t) % pOf 64) =
+      (List.range 4).flatMap (fun j => (List.range 4).map fun t =>
+        el (fft_full_sqrt2 3 8 x) (rev 4 (j + 4 * t)) % pOf 64) := by decide +kernel
 
 /-! ### (d) the convolution theorem as the multiplier uses it -/
 
